@@ -141,6 +141,14 @@ def run(tier, seed, replay=None):
                "kubectl", "python", "python3", "sqlite3", "sed", "sort", "awk", "curl", "tee", "echo", "printf", "ls", "cat"]
     all_known = sorted(set(SIMPLE_SAFE) | set(WRAPPER_COMMANDS) | set(KNOWN_HANDLERS) | set(special))
     pool = [n for n in all_known if n in special] + [n for i, n in enumerate(all_known) if n not in special and (tier == "thorough" or i % 5 == seed % 5)]
+    # inside double quotes bash keeps a backslash before an ordinary character: "l\s" runs a program named l\s
+    for n in [x for x in pool if len(x) >= 2 and x.isalnum()][:60]:
+        for k in range(0, len(n)):
+            if n[k] in '$`"\\\n':
+                continue
+            for sp in (f'"{n[:k]}\\{n[k:]}"', f'{n[:k]}"\\{n[k:]}"'):
+                for args in ("", " x"):
+                    judge_text(sp + args, "dq-backslash-name")
     families = ["./{n}", "sub/{n}", "/opt/x/{n}", "../{n}", "{n}/", ".{n}", "{n}.", "{N}", "{n}2", "{n}.sh", "ci/{n}", "/usr/local/bin/../{n}", "~/{n}", "{n}/{n}"]
     for n in pool:
         for fam in families:
